@@ -383,6 +383,9 @@ func (c *compiler) evalUpdateIndex(left, index, value interface{}) error {
 					if elemType != t {
 						err = fmt.Errorf("cannot use '%v' (untyped %s constant) as %s value in assignment", value, t, elemType)
 					}
+				} else if !newValue.Type().AssignableTo(elemType) {
+					// an element of a non-empty interface type takes only values that implement it
+					err = fmt.Errorf("cannot use '%v' (%s) as %s value in assignment", value, newValue.Type(), elemType)
 				}
 				if err == nil && !rv.Index(i).CanSet() {
 					err = fmt.Errorf("cannot assign to an element of %T", left)
@@ -635,11 +638,14 @@ func (c *compiler) arrayOperator(l interface{}, r interface{}, op string) (inter
 	switch op {
 	case "+":
 		elemType := reflect.TypeOf(l).Elem()
+		t := reflect.ValueOf(r).Type()
 		if elemType.Kind() != reflect.Interface {
-			t := reflect.ValueOf(r).Type()
 			if elemType != t {
 				err = fmt.Errorf("cannot append '%v' (untyped %s constant) as %s value in assignment", r, t, elemType)
 			}
+		} else if !t.AssignableTo(elemType) {
+			// a slice of a non-empty interface type ([]error, []fmt.Stringer) takes only values that implement it
+			err = fmt.Errorf("cannot append '%v' (%s) as %s value in assignment", r, t, elemType)
 		}
 		if err == nil {
 			return reflect.Append(reflect.ValueOf(l), reflect.ValueOf(r)), nil
